@@ -17,6 +17,8 @@ import (
 	"context"
 	"crypto/sha256"
 	"encoding/binary"
+	"encoding/json"
+	"regexp"
 	"errors"
 	"fmt"
 	"io"
@@ -147,6 +149,12 @@ func verifCCWriteKind() string {
 func (k *verifCCKV) Update(f func(tx walletdb.ReadWriteTx) error,
 	reset func()) error {
 
+	return k.update(verifCCWriteKind(), f, reset)
+}
+
+func (k *verifCCKV) update(kind string,
+	f func(tx walletdb.ReadWriteTx) error, reset func()) error {
+
 	k.wmu.Lock()
 	defer k.wmu.Unlock()
 
@@ -159,7 +167,6 @@ func (k *verifCCKV) Update(f func(tx walletdb.ReadWriteTx) error,
 	k.pending = nil
 	k.mu.Unlock()
 
-	kind := verifCCWriteKind()
 	err := k.inner.Update(f, reset)
 
 	k.mu.Lock()
@@ -301,7 +308,10 @@ func (h *verifCCHtlc) preimage() lntypes.Preimage {
 		b[:]...)))
 }
 
-func (h *verifCCHtlc) hash() lntypes.Hash { return h.preimage().Hash() }
+func (h *verifCCHtlc) hash() lntypes.Hash {
+	pre := h.preimage()
+	return pre.Hash()
+}
 
 func (h *verifCCHtlc) name() string {
 	d := "out"
@@ -322,8 +332,18 @@ func verifCCSetKey(k string) HtlcSetKey {
 	}
 }
 
-// verifCCCommitHash is the txid of commitment k in every case.
+var verifCCChanPoint = wire.OutPoint{
+	Hash:  chainhash.Hash(sha256.Sum256([]byte("verif-fund"))),
+	Index: 1,
+}
+
+// verifCCCommitHash is the txid of commitment k in every case. Our own
+// commitment is known to the arbitrator by the hash of the close transaction.
 func verifCCCommitHash(k string) chainhash.Hash {
+	if k == "local" {
+		return verifCCLocalCommitTx().TxHash()
+	}
+
 	return chainhash.Hash(sha256.Sum256([]byte("verif-commit-" + k)))
 }
 
@@ -375,6 +395,72 @@ func verifCCSets(htlcs []verifCCHtlc,
 
 	return sets
 }
+
+// verifCCPresence draws the presence of an HTLC on the three commitments as
+// the update protocol allows. Offered: added to the peer's pending commitment
+// first, then current, then ours; removed from ours first. Received: the
+// mirror image (ours is the superset).
+func verifCCPresence(r *verifRng, h *verifCCHtlc, withPending bool) {
+	if !h.Incoming {
+		if !withPending {
+			h.OnR = true
+			h.OnL = r.Chance(2, 3)
+			return
+		}
+		switch r.Intn(6) {
+		case 0: // just added by us, only signed to the peer
+			h.OnP = true
+		case 1: // being removed: gone from ours and the pending one
+			h.OnR = true
+		case 2: // on both of theirs, not (or no longer) on ours
+			h.OnR, h.OnP = true, true
+		default:
+			h.OnL, h.OnR, h.OnP = true, true, true
+		}
+		return
+	}
+	h.OnL = true
+	if !withPending {
+		h.OnR = r.Chance(2, 3)
+		return
+	}
+	switch r.Intn(6) {
+	case 0: // just added by the peer
+	case 1: // we acked it, in the pending commitment only
+		h.OnP = true
+	case 2: // we settled/failed it: gone from the pending one
+		h.OnR = true
+	default:
+		h.OnR, h.OnP = true, true
+	}
+}
+
+
+func verifCCResolverName(r ContractResolver) (string, string, *wire.OutPoint) {
+	switch t := r.(type) {
+	case *htlcTimeoutResolver:
+		op := t.HtlcPoint()
+		return "timeout", "out", &op
+	case *htlcOutgoingContestResolver:
+		op := t.HtlcPoint()
+		return "outgoingContest", "out", &op
+	case *htlcSuccessResolver:
+		op := t.HtlcPoint()
+		return "success", "in", &op
+	case *htlcIncomingContestResolver:
+		op := t.HtlcPoint()
+		return "incomingContest", "in", &op
+	case *commitSweepResolver:
+		return "commitSweep", "", nil
+	case *anchorResolver:
+		return "anchor", "", nil
+	case *breachResolver:
+		return "breach", "", nil
+	}
+
+	return fmt.Sprintf("%T", r), "", nil
+}
+
 
 // ---------------------------------------------------------------------------
 // World
@@ -439,6 +525,9 @@ type verifCCWorld struct {
 	incubated   map[wire.OutPoint]*verifCCIncubate
 	confKind    string // which commitment confirmed ("" = none yet)
 	confHeight  int32
+	closeOpts   [2]bool // withCommit, withAnchor of the confirmed close
+	newSpends   []*chainntnfs.SpendDetail
+	sweepDone   []verifCCSweepDone
 	postMortem  int // env calls made by a dead process (ignored)
 	notes       []string
 
@@ -446,7 +535,12 @@ type verifCCWorld struct {
 	roles map[wire.OutPoint]verifCCRole
 
 	// hook evaluated synchronously inside NotifyChannelResolved.
-	onResolved func() string
+	onResolved func(p *verifCCProc) string
+}
+
+type verifCCSweepDone struct {
+	req *verifCCSweepReq
+	res sweep.Result
 }
 
 type verifCCRole struct {
@@ -478,10 +572,7 @@ func verifCCNewWorld(kv *verifCCKV, htlcs []verifCCHtlc, withPending bool,
 		exitHop:     map[lntypes.Hash]bool{},
 		incubated:   map[wire.OutPoint]*verifCCIncubate{},
 		roles:       map[wire.OutPoint]verifCCRole{},
-		chanPoint: wire.OutPoint{
-			Hash:  chainhash.Hash(sha256.Sum256([]byte("verif-fund"))),
-			Index: 1,
-		},
+		chanPoint: verifCCChanPoint,
 		scid: lnwire.NewShortChanIDFromInt(0x0001_000002_0003),
 	}
 	for i := range htlcs {
@@ -517,7 +608,12 @@ func (w *verifCCWorld) setPhase(p string) {
 // envWrite performs one durable write of the environment (something lnd keeps
 // in channeldb next to the arbitrator log). then runs iff it committed.
 func (w *verifCCWorld) envWrite(key string, val []byte, then func()) error {
-	return w.kv.Update(func(tx walletdb.ReadWriteTx) error {
+	kind := key
+	if i := strings.Index(kind, "/"); i >= 0 {
+		kind = kind[:i]
+	}
+
+	return w.kv.update("env:"+kind, func(tx walletdb.ReadWriteTx) error {
 		b, err := tx.CreateTopLevelBucket([]byte("verif-env"))
 		if err != nil {
 			return err
@@ -863,16 +959,16 @@ func (c *verifCCChannel) ForceCloseChan() (*wire.MsgTx, error) {
 	w.forceCloses = append(w.forceCloses, w.height)
 	w.mu.Unlock()
 
-	return verifCCLocalCommitTx(w), nil
+	return verifCCLocalCommitTx(), nil
 }
 
 // verifCCLocalCommitTx is a transaction whose hash stands for our commitment.
 // (The arbitrator only hashes / publishes it.)
-func verifCCLocalCommitTx(w *verifCCWorld) *wire.MsgTx {
+func verifCCLocalCommitTx() *wire.MsgTx {
 	return &wire.MsgTx{
 		Version: 2,
 		TxIn: []*wire.TxIn{{
-			PreviousOutPoint: w.chanPoint,
+			PreviousOutPoint: verifCCChanPoint,
 			Witness:          [][]byte{{0x1}, {0x2}},
 		}},
 		TxOut: []*wire.TxOut{{Value: 1, PkScript: []byte("verif-local")}},
@@ -890,6 +986,8 @@ type verifCCArbOpts struct {
 	// newActiveChannelArbitrator does); otherwise they are delivered with
 	// notifyContractUpdate after Start.
 	InitialSets bool
+	// OnProc is called with the new process before it is started.
+	OnProc func(*verifCCProc)
 }
 
 func (w *verifCCWorld) newProc(inc int) *verifCCProc {
@@ -907,6 +1005,9 @@ func verifCCStart(t testing.TB, w *verifCCWorld, inc int,
 	o verifCCArbOpts) (*verifCCProc, error) {
 
 	p := w.newProc(inc)
+	if o.OnProc != nil {
+		o.OnProc(p)
+	}
 
 	w.mu.Lock()
 	closed := w.closed
@@ -1039,7 +1140,7 @@ func verifCCStart(t testing.TB, w *verifCCWorld, inc int,
 			}
 			bad := ""
 			if w.onResolved != nil {
-				bad = w.onResolved()
+				bad = w.onResolved(p)
 			}
 			w.mu.Lock()
 			w.resolvedN++
@@ -1154,6 +1255,7 @@ func verifCCStart(t testing.TB, w *verifCCWorld, inc int,
 		return nil, err
 	}
 	p.barrier()
+	w.quiesce(t, p)
 
 	if closed == nil && !o.InitialSets && inc == 0 {
 		for k, v := range verifCCSets(w.htlcs, w.withPending) {
@@ -1172,17 +1274,84 @@ func verifCCStart(t testing.TB, w *verifCCWorld, inc int,
 	return p, nil
 }
 
+// call runs a synchronous hand-shake with the attendant goroutine. If the
+// attendant is no longer listening (it returns for good once the channel is
+// fully resolved) the hand-shake can never complete; that is detected by every
+// goroutine being parked, and false is returned. The abandoned helper goroutine
+// ends with Stop().
+func (p *verifCCProc) call(fn func()) bool {
+	done := make(chan struct{})
+	go func() {
+		fn()
+		close(done)
+	}()
+	parked := 0
+	for {
+		select {
+		case <-done:
+			return true
+		default:
+		}
+		runtime.Gosched()
+		if verifCCAllParked() {
+			parked++
+		} else {
+			parked = 0
+		}
+		if parked >= 3 {
+			select {
+			case <-done:
+				return true
+			default:
+				return false
+			}
+		}
+	}
+}
+
 // barrier returns once the attendant goroutine has worked off everything that
 // was queued before the call (its start-up state advance included).
-func (p *verifCCProc) barrier() {
-	p.arb.UpdateContractSignals(&ContractSignals{ShortChanID: p.w.scid})
+func (p *verifCCProc) barrier() bool {
+	return p.call(func() {
+		p.arb.UpdateContractSignals(
+			&ContractSignals{ShortChanID: p.w.scid},
+		)
+	})
 }
 
 // block hands the next block to the arbitrator exactly as the blockbeat
 // dispatcher does; returns after handleBlockbeat finished.
-func (p *verifCCProc) block(height int32) {
+func (p *verifCCProc) block(height int32) bool {
 	beat := chainio.Blockbeat(newBeatFromHeight(height))
-	_ = p.arb.ProcessBlock(beat)
+	return p.call(func() { _ = p.arb.ProcessBlock(beat) })
+}
+
+// userForceClose sends a force close request as ChainArbitrator.
+// ForceCloseContract does and returns the error it got.
+func (p *verifCCProc) userForceClose() (bool, error) {
+	var err error
+	ok := p.call(func() {
+		errChan := make(chan error, 1)
+		respChan := make(chan *wire.MsgTx, 1)
+		select {
+		case p.arb.forceCloseReqs <- &forceCloseReq{
+			errResp: errChan, closeTx: respChan,
+		}:
+		case <-p.arb.quit:
+			return
+		}
+		select {
+		case <-respChan:
+		case <-p.arb.quit:
+			return
+		}
+		select {
+		case err = <-errChan:
+		case <-p.arb.quit:
+		}
+	})
+
+	return ok, err
 }
 
 func (p *verifCCProc) stop() {
@@ -1207,9 +1376,15 @@ func (p *verifCCProc) kill() { p.dead.Store(true) }
 var verifCCWitnessScript = []byte{0x63, 0x51, 0x52, 0x53}
 
 func verifCCSignDesc(value int64, tag string) input.SignDescriptor {
+	script := append(append([]byte{}, verifCCWitnessScript...),
+		[]byte(tag)...)
+	if !strings.HasPrefix(tag, "local") {
+		// Only outputs of our own commitment start with OP_IF.
+		script[0] = 0x76
+	}
+
 	return input.SignDescriptor{
-		WitnessScript: append(append([]byte{}, verifCCWitnessScript...),
-			[]byte(tag)...),
+		WitnessScript: script,
 		Output: &wire.TxOut{
 			Value:    value,
 			PkScript: append([]byte{0x00, 0x20}, sha256Sum(tag)...),
@@ -1370,13 +1545,15 @@ func (w *verifCCWorld) commitSet(k string) CommitSet {
 	}
 }
 
-// confirm records in the world that commitment k has been mined at the
-// current height (the funding outpoint is spent).
-func (w *verifCCWorld) confirm(k string, withCommit, withAnchor bool) {
+// confirm records in the world that commitment k is mined at the given height
+// (the funding outpoint is spent).
+func (w *verifCCWorld) confirm(k string, height int32, withCommit,
+	withAnchor bool) {
+
 	w.mu.Lock()
 	if w.confKind == "" {
 		w.confKind = k
-		w.confHeight = w.height
+		w.confHeight = height
 	}
 	w.mu.Unlock()
 	w.closeOpts = [2]bool{withCommit, withAnchor}
@@ -1406,10 +1583,7 @@ func (p *verifCCProc) sendClose(k string) {
 	case "local":
 		summary.CloseType = channeldb.LocalForceClose
 		hr, cr, ar := w.resolutions(k, withCommit, withAnchor)
-		// The arbitrator derives the commit hash from CloseTx; role
-		// bookkeeping above used verifCCCommitHash("local"), so remap.
-		closeTx := verifCCLocalCommitTx(w)
-		w.remapLocal(closeTx.TxHash(), hr, cr, ar)
+		closeTx := verifCCLocalCommitTx()
 		p.events.LocalUnilateralClosure <- &LocalUnilateralCloseInfo{
 			SpendDetail: &chainntnfs.SpendDetail{
 				SpendingHeight: height,
@@ -1475,64 +1649,6 @@ func (p *verifCCProc) sendClose(k string) {
 	}
 }
 
-// remapLocal rewrites the outpoints of local resolutions to the real hash of
-// the local commitment transaction.
-func (w *verifCCWorld) remapLocal(real chainhash.Hash,
-	hr *lnwallet.HtlcResolutions, cr *lnwallet.CommitOutputResolution,
-	ar *lnwallet.AnchorResolution) {
-
-	model := verifCCCommitHash("local")
-	w.mu.Lock()
-	defer w.mu.Unlock()
-	fix := func(op *wire.OutPoint) {
-		if op.Hash != model {
-			return
-		}
-		role, ok := w.roles[*op]
-		op.Hash = real
-		if ok {
-			w.roles[*op] = role
-		}
-	}
-	for i := range hr.IncomingHTLCs {
-		r := &hr.IncomingHTLCs[i]
-		old := r.ClaimOutpoint
-		fix(&r.SignedSuccessTx.TxIn[0].PreviousOutPoint)
-		r.ClaimOutpoint = wire.OutPoint{
-			Hash: r.SignedSuccessTx.TxHash(), Index: 0,
-		}
-		if role, ok := w.roles[old]; ok {
-			w.roles[r.ClaimOutpoint] = role
-		}
-	}
-	for i := range hr.OutgoingHTLCs {
-		r := &hr.OutgoingHTLCs[i]
-		old := r.ClaimOutpoint
-		fix(&r.SignedTimeoutTx.TxIn[0].PreviousOutPoint)
-		r.ClaimOutpoint = wire.OutPoint{
-			Hash: r.SignedTimeoutTx.TxHash(), Index: 0,
-		}
-		if role, ok := w.roles[old]; ok {
-			w.roles[r.ClaimOutpoint] = role
-		}
-	}
-	if cr != nil {
-		fix(&cr.SelfOutPoint)
-	}
-	if ar != nil {
-		fix(&ar.CommitAnchor)
-	}
-}
-
-// commitHashOf is the hash under which the arbitrator knows commitment k.
-func (w *verifCCWorld) commitHashOf(k string) chainhash.Hash {
-	if k == "local" {
-		return verifCCLocalCommitTx(w).TxHash()
-	}
-
-	return verifCCCommitHash(k)
-}
-
 // ---------------------------------------------------------------------------
 // Chain progress: mining, sweeper, nursery, peer claims
 // ---------------------------------------------------------------------------
@@ -1557,19 +1673,30 @@ func (w *verifCCWorld) spend(p *verifCCProc, op wire.OutPoint, tx *wire.MsgTx,
 	if ours {
 		w.ourTx[txid] = true
 	}
+	w.newSpends = append(w.newSpends, sd)
 	w.mu.Unlock()
 	w.bump()
+}
+
+// flushSpends notifies the process of every spend mined since the last call.
+func (w *verifCCWorld) flushSpends(p *verifCCProc) {
+	w.mu.Lock()
+	sds := w.newSpends
+	w.newSpends = nil
+	w.mu.Unlock()
 	if p == nil || p.dead.Load() {
 		return
 	}
-	p.mu.Lock()
-	regs := p.spendRegs[op]
-	delete(p.spendRegs, op)
-	p.mu.Unlock()
-	for _, ch := range regs {
-		select {
-		case ch <- sd:
-		default:
+	for _, sd := range sds {
+		p.mu.Lock()
+		regs := p.spendRegs[*sd.SpentOutPoint]
+		delete(p.spendRegs, *sd.SpentOutPoint)
+		p.mu.Unlock()
+		for _, ch := range regs {
+			select {
+			case ch <- sd:
+			default:
+			}
 		}
 	}
 }
@@ -1661,7 +1788,7 @@ func (w *verifCCWorld) mine(p *verifCCProc) {
 	if confKind == "local" || confKind == "remote" ||
 		confKind == "pending" {
 
-		commitHash := w.commitHashOf(confKind)
+		commitHash := verifCCCommitHash(confKind)
 		for pos := range w.htlcs {
 			h := &w.htlcs[pos]
 			if h.Incoming || h.RemoteClaimAt == 0 ||
@@ -1690,11 +1817,17 @@ func (w *verifCCWorld) mine(p *verifCCProc) {
 		}
 	}
 
-	// Preimages we learn off-chain (another channel settled).
+	// Preimages we learn off-chain (another channel settled): durable in
+	// the witness cache whether or not this process is alive.
+	var (
+		learned []lntypes.Preimage
+		results []verifCCSweepDone
+	)
 	for pos := range w.htlcs {
 		h := &w.htlcs[pos]
 		if h.Incoming && h.LearnAt != 0 && height == h.LearnAt {
-			w.learnPreimages(p, h.preimage())
+			learned = append(learned, h.preimage())
+			w.learnPreimages(nil, h.preimage())
 		}
 	}
 
@@ -1785,10 +1918,7 @@ func (w *verifCCWorld) mine(p *verifCCProc) {
 				if !w.ourTx[*sp.SpenderTxHash] {
 					res.Err = sweep.ErrRemoteSpend
 				}
-				select {
-				case r.result <- res:
-				default:
-				}
+				results = append(results, verifCCSweepDone{r, res})
 
 				continue
 			}
@@ -1812,15 +1942,26 @@ func (w *verifCCWorld) mine(p *verifCCProc) {
 			)
 			r.done = true
 			w.spend(p, op, tx, 0, true)
-			select {
-			case r.result <- sweep.Result{Tx: tx}:
-			default:
-			}
+			results = append(results, verifCCSweepDone{
+				r, sweep.Result{Tx: tx},
+			})
 		}
 	}
 
+	// The chain is final for this block: now the process hears about it.
 	if p == nil || p.dead.Load() {
+		w.flushSpends(nil)
 		return
+	}
+	for _, pre := range learned {
+		w.learnPreimages(p, pre)
+	}
+	w.flushSpends(p)
+	for _, d := range results {
+		select {
+		case d.req.result <- d.res:
+		default:
+		}
 	}
 
 	// Block epochs, then the blockbeat.
@@ -1834,6 +1975,18 @@ func (w *verifCCWorld) mine(p *verifCCProc) {
 		}
 	}
 	p.block(height)
+}
+
+// tick delivers a block to the arbitrator without any chain activity of the
+// world (C12 only observes decisions).
+func (w *verifCCWorld) tick(p *verifCCProc) bool {
+	w.mu.Lock()
+	w.height++
+	height := w.height
+	w.mu.Unlock()
+	w.bump()
+
+	return p.block(height)
 }
 
 func verifCCSweepTx(op wire.OutPoint, required *wire.TxOut, height int32,
@@ -1883,13 +2036,19 @@ func (w *verifCCWorld) breachComplete(p *verifCCProc) {
 
 var verifCCBusyStates = []string{
 	"running", "runnable", "syscall", "sleep", "IO wait", "GC ",
-	"waiting", "copystack", "preempted", "dead", "finalizer wait",
+	"copystack", "preempted", "trace",
 }
 
+var (
+	verifCCStackMu  sync.Mutex
+	verifCCStackBuf = make([]byte, 4<<20)
+)
+
 func verifCCAllParked() bool {
-	buf := make([]byte, 1<<20)
-	n := runtime.Stack(buf, true)
-	dump := string(buf[:n])
+	verifCCStackMu.Lock()
+	defer verifCCStackMu.Unlock()
+	n := runtime.Stack(verifCCStackBuf, true)
+	dump := string(verifCCStackBuf[:n])
 	first := true
 	for _, g := range strings.Split(dump, "\n\n") {
 		if !strings.HasPrefix(g, "goroutine ") {
@@ -1898,6 +2057,11 @@ func verifCCAllParked() bool {
 		if first {
 			// The calling goroutine is always listed first.
 			first = false
+			continue
+		}
+		if strings.Contains(g, "os/signal.") ||
+			strings.Contains(g, "signal_recv") {
+
 			continue
 		}
 		i := strings.Index(g, "[")
@@ -1966,4 +2130,109 @@ func verifCCScratch(t testing.TB) string {
 
 func verifCCDBPath(dir string, n int) string {
 	return filepath.Join(dir, fmt.Sprintf("arb-%d.db", n))
+}
+
+func verifCCStateString(b *boltArbitratorLog) string {
+	s, err := b.CurrentState(nil)
+	if err != nil {
+		return "err:" + err.Error()
+	}
+
+	return s.String()
+}
+
+// ---------------------------------------------------------------------------
+// Violation budget
+// ---------------------------------------------------------------------------
+
+// The harness runtime keeps at most 50 violations per process. Findings that
+// are already listed in known_findings.json recur in a large share of the
+// cases, so without care they would use up that budget and hide anything new.
+// Every distinct key is therefore reported once per process, and keys that
+// match a known finding are limited to verifCCKnownBudget reports. This only
+// decides how often the same fact is written out; no verdict is dropped (the
+// first report of every distinct key always goes through while budget is
+// left, and suppressed repeats are counted).
+const verifCCKnownBudget = 12
+
+type verifCCKnown struct {
+	oracle string
+	re     *regexp.Regexp
+}
+
+var (
+	verifCCReportMu    sync.Mutex
+	verifCCReported    = map[string]bool{}
+	verifCCKnownUsed   int
+	verifCCKnownList   []verifCCKnown
+	verifCCKnownLoaded bool
+)
+
+func verifCCLoadKnown(prop string) {
+	verifCCKnownLoaded = true
+	dir := os.Getenv("VERIF_DIR")
+	if dir == "" {
+		return
+	}
+	raw, err := os.ReadFile(filepath.Join(dir, "known_findings.json"))
+	if err != nil {
+		return
+	}
+	var doc struct {
+		Findings []struct {
+			Status   string `json:"status"`
+			Property string `json:"property"`
+			Oracle   string `json:"oracle"`
+			KeyRegex string `json:"key_regex"`
+		} `json:"findings"`
+	}
+	if json.Unmarshal(raw, &doc) != nil {
+		return
+	}
+	for _, f := range doc.Findings {
+		if f.Status != "known" || f.Property != prop ||
+			f.KeyRegex == "" {
+
+			continue
+		}
+		re, err := regexp.Compile(f.KeyRegex)
+		if err != nil {
+			continue
+		}
+		verifCCKnownList = append(verifCCKnownList, verifCCKnown{
+			oracle: f.Oracle, re: re,
+		})
+	}
+}
+
+func verifCCViolation(vc *verifCtx, oracle, key, detail string, witness any) {
+	verifCCReportMu.Lock()
+	if !verifCCKnownLoaded {
+		verifCCLoadKnown(vc.Prop)
+	}
+	id := oracle + "|" + key
+	if verifCCReported[id] {
+		verifCCReportMu.Unlock()
+		vc.Count("violation_repeats_not_rereported", 1)
+		return
+	}
+	known := false
+	for _, k := range verifCCKnownList {
+		if (k.oracle == "" || k.oracle == oracle) &&
+			k.re.MatchString(key) {
+
+			known = true
+		}
+	}
+	if known && verifCCKnownUsed >= verifCCKnownBudget {
+		verifCCReportMu.Unlock()
+		vc.Count("known_finding_keys_not_rereported", 1)
+		return
+	}
+	verifCCReported[id] = true
+	if known {
+		verifCCKnownUsed++
+	}
+	verifCCReportMu.Unlock()
+	vc.Violation(oracle, key, detail, witness)
 }
